@@ -55,6 +55,19 @@ def main():
 
         statespace.StateSpace.choose_possible = counting_choose
 
+        # Search-heuristic switch (no effect on soundness): CrossHair may "prematurely realize" an
+        # argument as an UNCONSTRAINED concrete value when earlier paths realized it anyway.  With
+        # bounded selector arguments this only produces precondition failures and an un-exhaustible
+        # parallel branch, so the harness arguments always stay symbolic.
+        orig_fork_parallel = statespace.StateSpace.fork_parallel
+
+        def fork_parallel(self, false_probability, desc=""):
+            if desc.startswith("premature realize"):
+                return False
+            return orig_fork_parallel(self, false_probability, desc)
+
+        statespace.StateSpace.fork_parallel = fork_parallel
+
         with prefer_pure_python_imports():
             spec = importlib.util.spec_from_file_location(
                 "vharness_" + os.path.splitext(os.path.basename(path))[0], path)
